@@ -145,3 +145,14 @@ Theorem C06_job_roundtrip_url : forall j, job_ok j -> job_bytes_ok j ->
      ip_spy := j_spy j; ip_rate := j_rate j; ip_units := j_units j; ip_aggregation := j_aggregation j |}.
 Proof. exact job_roundtrip_url. Qed.
 Print Assumptions C06_job_roundtrip_url.
+
+(* the defaults hold for whatever request line arrives: any raw query string, well formed or not, in which the
+   handler finds none of the four parameters (absent, empty, or dropped because of a malformed escape) *)
+Theorem C06_defaults_url : forall raw ct,
+  let q := url_parse_query raw in
+  q_get (ascii "spyName") q = [] -> q_get (ascii "sampleRate") q = [] ->
+  q_get (ascii "units") q = [] -> q_get (ascii "aggregationType") q = [] ->
+  let ip := ingest_params_of q ct in
+  ip_spy ip = ascii "unknown" /\ ip_rate ip = 100 /\ ip_units ip = ascii "samples" /\ ip_aggregation ip = ascii "sum".
+Proof. exact (fun raw ct => ingest_defaults (url_parse_query raw) ct). Qed.
+Print Assumptions C06_defaults_url.
